@@ -159,8 +159,10 @@ def vertical_profiles(
 
         K = kap * ustar * z / phi(z / mol) / prsc
 
-        Kx = K * v**2 / (u**2 + v**2)
-        Ky = K * u**2 / (u**2 + v**2)
+        # crosswind projection from the (height-independent) wind direction; the
+        # profile itself can be exactly zero at z0 in the neutral limit (0/0)
+        Kx = K * vm**2 / absum**2
+        Ky = K * um**2 / absum**2
         Kz = K
 
     elif closure == "OAAHOC":
